@@ -1115,6 +1115,21 @@ impl EGraph {
         updated
     }
 
+    /// Report a panic that was raised outside of [`EGraph::run_rules`], for
+    /// example by a merge function while [`EGraph::flush_updates`] merged
+    /// staged rows.
+    ///
+    /// Such a panic only leaves its message behind. The message slot is shared
+    /// with every clone of this e-graph, so a message that is not taken here
+    /// would be reported by the next `run_rules` of this e-graph or of any of
+    /// its clones, which did not cause it.
+    pub fn take_panic(&mut self) -> Result<()> {
+        match self.panic_message.lock().unwrap().take() {
+            Some(message) => Err(PanicError(message).into()),
+            None => Ok(()),
+        }
+    }
+
     pub fn set_report_level(&mut self, level: ReportLevel) {
         self.report_level = level;
     }
